@@ -222,10 +222,13 @@ func main() {
 		return
 	}
 	x.runCorpus(false)
+	ts := time.Now()
+	x.sweeps()
+	sum.Extra["sweep_seconds"] = time.Since(ts).Seconds()
 
 	seeds := append(fixtureSeeds(), sampleSeeds()...)
 	sum.Extra["sample_schemas_loaded"] = len(seeds) - 7
-	nSchemas := o.Count(2200, 40000)
+	nSchemas := o.Count(1600, 40000)
 	inputsPer := 3
 	t0 := time.Now()
 	for i := 0; i < nSchemas && hangs < 6; i++ {
